@@ -12,10 +12,13 @@ import Grip.Model.C14T
 import GripGen.MongoTyping
 import GripGen.CoreTypingC14
 import GripProofs.Lemmas.C14
+import GripProofs.Lemmas.C14Old
 import GripProofs.Lemmas.C14T
 
 namespace Grip.Props.C14
 open Grip Grip.C08 Grip.C14 Grip.C14T
+open Grip.Props.C14.Lemmas (wellFormed wellFormedList leafWellFormed agreeW agreeWList leafAgreeW twoBounds)
+open Grip.Props.C14.Old (oldContains oldWithin oldWithout oldJunction)
 
 /-! ## Typing agreement -/
 
@@ -76,41 +79,173 @@ theorem typing_agrees_on_untyped_aggregation (nm : Names) :
 
 /-! ## Filter meaning -/
 
+/-! ### Negation push-down -/
+
 /-- Negation push-down: the document emitted with `not = true` selects exactly the complement of
-    the one emitted with `not = false` (and is refused by the server exactly when that one is), for
-    every expression whose oneofs are set and whose range operators carry a list — any depth. -/
-theorem not_pushdown (d : Elem) (e : HasE) (h : translatable e = true) :
+    the one emitted with `not = false`, for every expression whose oneofs are set and whose
+    conditions are operators the `switch` lists (`wellFormed`) — any depth, ANY arguments, ANY
+    member lists.
+
+    Hypotheses DROPPED against the previous statement (which asked `translatable e`): range
+    operators need not carry a list (a malformed range is `matchNone(not)` under either polarity),
+    and nothing is asked of and()/or() member lists (the empty ones are `.all`/`.nothing`, which
+    are total).  `translatable e → wellFormed e` is `Lemmas.translatable_wellFormed`; the old
+    statement is `not_pushdown_translatable`.  The two remaining hypotheses are necessary:
+    `pushdown_needs_oneof`, `pushdown_needs_known_condition`. -/
+theorem not_pushdown (d : Elem) (e : HasE) (h : wellFormed e = true) :
     mEval d (convert e true) = (mEval d (convert e false)).map (!·) := by
   simpa using Lemmas.pushdown d e false h
+
+/-- The same from any polarity (so also from inside a negation, at any depth). -/
+theorem not_pushdown_any (d : Elem) (e : HasE) (n : Bool) (h : wellFormed e = true) :
+    mEval d (convert e (!n)) = (mEval d (convert e n)).map (!·) :=
+  Lemmas.pushdown d e n h
+
+/-- The previous statement of `not_pushdown` (hypothesis `translatable`), a corollary. -/
+theorem not_pushdown_translatable (d : Elem) (e : HasE) (h : translatable e = true) :
+    mEval d (convert e true) = (mEval d (convert e false)).map (!·) :=
+  not_pushdown d e (Lemmas.translatable_wellFormed e h)
+
+/-- `wellFormed` is strictly weaker than `translatable`. -/
+theorem wellFormed_of_translatable (e : HasE) (h : translatable e = true) : wellFormed e = true :=
+  Lemmas.translatable_wellFormed e h
+
+/-- test: not translatable (range without a list, under an empty and), yet well-formed. -/
+example : translatable (.and [.cond "x" .inside (.num 1024), .or []]) = false ∧
+    wellFormed (.and [.cond "x" .inside (.num 1024), .or []]) = true := by decide
+
+/-- test (non-vacuity of `not_pushdown`): empty and/or, malformed range, non-list within, nested
+    negation — all inside the hypothesis. -/
+example : wellFormed (.not (.or [.and [], .cond "x" .between (.arr [.num 1]),
+    .cond "y" .within (.str "a"), .cond "tags" .contains (.num 1024)])) = true := by decide
+
+/-- Push-down is FALSE for an expression whose oneof is not set: convertHasExpression's
+    `default:` arm leaves `bson.M{}` under either polarity, which selects every document both
+    times.  (Go: `convertHasExpression(&gripql.HasExpression{}, not)`; the core engine keeps nothing
+    for it and everything for its negation — `leafWhy`/`whys` name it "malformed".) -/
+theorem pushdown_needs_oneof (d : Elem) :
+    mEval d (convert .none true) = some true ∧ mEval d (convert .none false) = some true :=
+  ⟨rfl, rfl⟩
+
+/-- Push-down is FALSE for a condition number the `switch` does not list: `not = false` gives
+    `{key: {}}` (selects nothing here), `not = true` gives `{key: {$not: {}}}`, which MongoDB
+    refuses.  (Go: `convertCondition(&gripql.HasCondition{Key: k, Condition: 0}, true)`.) -/
+theorem pushdown_needs_known_condition (d : Elem) (k : String) (a : JV) :
+    mEval d (convert (.cond k .unset a) true) = none ∧
+    mEval d (convert (.cond k .unset a) false) = some false :=
+  ⟨rfl, rfl⟩
+
+/-- On a single condition the hypothesis is exact: push-down holds (for some, equivalently every,
+    document, key and argument) iff the condition is one the `switch` lists. -/
+theorem pushdown_leaf_iff (d : Elem) (k : String) (c : Cond) (a : JV) :
+    mEval d (convert (.cond k c a) true) = (mEval d (convert (.cond k c a) false)).map (!·) ↔
+      leafWellFormed c = true := by
+  constructor
+  · intro h
+    cases c <;> first | rfl | exact absurd h (by simp [convert, convCond, opOf, mEval, evalOp])
+  · intro h; simpa using Lemmas.leaf_pushdown d k c a false h
 
 /-- Double negation is the identity on the emitted document (the repaired defect C14-not-not). -/
 theorem double_neg_convert (e : HasE) (n : Bool) : convert (.not (.not e)) n = convert e n := by
   simp [convert]
 
+/-! ### Validity: MongoDB accepts what is emitted -/
+
+/-- FULL (no agreement hypothesis): for every well-formed expression — any depth, any arguments,
+    empty and()/or(), non-list within/without, malformed ranges — and either polarity, the emitted
+    filter is one MongoDB accepts.  This is the content of `fix: the mongo compiler emits no filter
+    MongoDB rejects`.  The only refused output left is `{key: {$not: {}}}` for a condition outside
+    the enum under a negation (`pushdown_needs_known_condition`). -/
+theorem filter_valid (d : Elem) (e : HasE) (n : Bool) (h : wellFormed e = true) :
+    (mEval d (convert e n)).isSome = true :=
+  Lemmas.valid d e n h
+
+/-- FULL: the crash marker is never emitted, for every expression whatsoever. -/
+theorem filter_never_crashes (e : HasE) (n : Bool) : hasCrash (convert e n) = false :=
+  Lemmas.noCrash e n
+
+/-! ### Equivalence -/
+
 /-- Filter equivalence.  PARTIAL: proved for every nesting depth under `agree`, i.e. scalar field
-    values, ordering operators comparing a non-numeric-text value with a number, list operators
-    carrying lists, range operators carrying two numbers, non-empty and/or, and `contains` not
-    applied to a scalar equal to its argument.  What is missing are exactly the open findings
-    C14-order-cast, C14-contains-scalar, C14-invalid-filter, C14-range-args, each refuted at full
-    strength by a witness below. -/
+    values, ordering operators comparing a non-numeric-text value with a number, range operators
+    carrying two numbers.  Since the repairs `agree` no longer excludes within/without with a
+    non-list argument, `contains` on a scalar equal to its argument, nor and()/or() without
+    members: the statement covers them.  What is still missing for the full statement (every
+    expression, every document) is the open finding C14-order-cast, refuted at full strength by
+    `filter_differs_numeric_text` / `filter_differs_bool_order`, and field values that are lists or
+    objects under operators other than contains, which `mEval` does not claim to interpret.
+    `filter_equiv_wide_partial` below covers strictly more. -/
 theorem filter_equiv_partial (numOf : String → Option Int) (d : Elem) (e : HasE)
     (h : agree numOf d e = true) :
-    mEval d (convert e false) = some (eval numOf d e) :=
-  Lemmas.equiv numOf d e h
+    mEval d (convert e false) = some (eval numOf d e) := by
+  simpa [Lemmas.pol] using Lemmas.equiv numOf d e false h
 
 /-- The same for a `has` compiled in a negated context. -/
 theorem filter_equiv_negated_partial (numOf : String → Option Int) (d : Elem) (e : HasE)
     (h : agree numOf d e = true) :
     mEval d (convert e true) = some (!(eval numOf d e)) := by
-  rw [not_pushdown d e (Lemmas.agree_translatable numOf d e h), filter_equiv_partial numOf d e h]
-  rfl
+  simpa [Lemmas.pol] using Lemmas.equiv numOf d e true h
 
-/-- In the agreeing region the emitted document is never refused and never the crash marker. -/
+/-- Both polarities in one statement, on the WIDER region `agreeW`: `leafAgree`, or one of the
+    leaves that agree on every field value whatsoever — contains (any field value, any argument),
+    within/without with a non-list argument, a range operator whose argument is not a list of two
+    values.  Still partial for the reason given at `filter_equiv_partial`. -/
+theorem filter_equiv_wide_partial (numOf : String → Option Int) (d : Elem) (e : HasE) (n : Bool)
+    (h : agreeW numOf d e = true) :
+    mEval d (convert e n) = some (eval numOf d e != n) :=
+  Lemmas.equivW numOf d e n h
+
+/-- `agree` is inside `agreeW`. -/
+theorem agree_wide (numOf : String → Option Int) (d : Elem) (e : HasE)
+    (h : agree numOf d e = true) : agreeW numOf d e = true :=
+  Lemmas.agree_agreeW numOf d e h
+
+/-- The driver's classification is sound: when `whys` names no reason for a divergence, there is
+    none, under either polarity. -/
+theorem filter_equiv_classified (numOf : String → Option Int) (d : Elem) (e : HasE) (n : Bool)
+    (h : whys numOf d e = []) :
+    mEval d (convert e n) = some (eval numOf d e != n) :=
+  Lemmas.equivW numOf d e n (Lemmas.whys_nil numOf d e h)
+
+/-- In the agreeing region the emitted document is never refused and never the crash marker.
+    (`filter_valid` / `filter_never_crashes` say so without the agreement hypothesis.) -/
 theorem filter_valid_partial (numOf : String → Option Int) (d : Elem) (e : HasE)
     (h : agree numOf d e = true) : (mEval d (convert e false)).isSome = true := by
   rw [filter_equiv_partial numOf d e h]; rfl
 
-/-! ### Witnesses: the full-strength statement is false (open findings) -/
+section tests
+/-- test: a concrete element for the hypotheses `lookup d … = …` used below (string splitting does
+    not reduce in the kernel, so the element is checked by evaluation). -/
+def d0 : Elem :=
+  { gid := "v1", label := "L",
+    data := .obj [("x", .num 2048), ("s", .str "30"), ("tags", .arr [.str "a", .num 1024])] }
+#guard lookup d0 "x" == .num 2048
+#guard lookup d0 "s" == .str "30"
+#guard lookup d0 "tags" == .arr [.str "a", .num 1024]
+#guard lookup d0 "missing" == .null
+
+def dec : String → Option Int := fun s => if s = "30" then some 30720 else none
+
+/-- test (non-vacuity of `filter_equiv_partial`): ordering, a non-list within under a negation, an
+    empty or(), contains on a scalar equal to the argument — all inside `agree` now. -/
+example (d : Elem) (hx : lookup d "x" = .num 2048) :
+    agree dec d (.and [.cond "x" .gt (.num 1024), .not (.cond "x" .within (.num 2048)),
+      .not (.or []), .not (.cond "x" .contains (.num 2048))]) = true := by
+  simp [agree, agreeList, leafAgree, hx, isScalar, isNumJ, notNumText]
+
+/-- test (non-vacuity of `filter_equiv_wide_partial` beyond `agree`): contains on a LIST field,
+    whatever else the element holds. -/
+example (d : Elem) : agreeW dec d (.or [.cond "tags" .contains (.num 1024),
+    .not (.cond "tags" .inside (.arr [.num 1])), .cond "tags" .without .null]) = true := by
+  simp [agreeW, agreeWList, leafAgreeW, isArr, twoBounds]
+
+/-- test (non-vacuity of `filter_equiv_classified`). -/
+example (d : Elem) (hx : lookup d "x" = .num 2048) :
+    whys dec d (.and [.cond "x" .lte (.num 4096), .not (.and [])]) = [] := by
+  simp [whys, whysList, leafWhy, hx, isScalar, isNumJ, notNumText]
+end tests
+
+/-! ### Witnesses: the full-strength statement is false (open finding C14-order-cast) -/
 
 /-- C14-order-cast: `has(gt("x", 5))` on `x = "30"`: the core engine casts the text and keeps the
     document, `{data.x: {$gt: 5}}` does not select a string. -/
@@ -132,22 +267,125 @@ theorem filter_differs_bool_order (numOf : String → Option Int) (d : Elem)
   · simp [convert, convCond, mEval, opOf, evalOp, isGt, ordLt, hx]
   · simp [eval, matchesCond, cmp2, toNum, hx]
 
-/-- C14-contains-scalar. -/
-theorem filter_differs_contains_scalar (numOf : String → Option Int) (d : Elem)
-    (hx : lookup d "x" = .num 1024) :
-    mEval d (convert (.cond "x" .contains (.num 1024)) false) = some true ∧
+/-! ### C14-contains-scalar, REPAIRED (`contains` compiles to `$elemMatch`) -/
+
+/-- FULL — for EVERY document, key, argument and polarity, hence for every field value whatsoever
+    (scalar, list, object, missing): the filter emitted for contains(k, a) is accepted and selects
+    exactly the documents the core engine keeps.  (Replaces `filter_differs_contains_scalar`, which
+    is false of the repaired translation; the old fact is `old_contains_selected_scalar`.) -/
+theorem contains_agrees (numOf : String → Option Int) (d : Elem) (k : String) (a : JV) (n : Bool) :
+    mEval d (convert (.cond k .contains a) n) = some (eval numOf d (.cond k .contains a) != n) := by
+  simpa [eval, Lemmas.pol] using Lemmas.leaf_contains numOf d k a n
+
+/-- …spelled out by field value: a list field is selected exactly when it has an element equal to
+    the argument; any other field value never. -/
+theorem contains_agrees_by_value (d : Elem) (k : String) (a : JV) :
+    (∀ xs, lookup d k = .arr xs →
+      mEval d (convert (.cond k .contains a) false) = some (foundIn a xs)) ∧
+    ((∀ xs, lookup d k ≠ .arr xs) →
+      mEval d (convert (.cond k .contains a) false) = some false) := by
+  constructor
+  · intro xs hx; simp [convert, convCond, mEval, opOf, evalOp, hx]
+  · intro hx
+    simp only [convert, convCond, mEval, opOf, Bool.false_eq_true, if_false]
+    cases hv : lookup d k <;> simp [evalOp]
+    exact absurd hv (hx _)
+
+/-- test: the former witness (scalar field equal to the argument) and a list field. -/
+example (numOf : String → Option Int) (d : Elem) (hx : lookup d "x" = .num 1024) :
+    mEval d (convert (.cond "x" .contains (.num 1024)) false) = some false ∧
     eval numOf d (.cond "x" .contains (.num 1024)) = false := by
   constructor
-  · simp [convert, convCond, mEval, opOf, evalOp, foundIn, hx]
+  · simp [convert, convCond, mEval, opOf, evalOp, hx]
   · simp [eval, matchesCond, hx]
-
-/-- C14-invalid-filter: `has(and())` is `{$and: []}`, which MongoDB refuses; the core engine keeps
-    every document. -/
-theorem filter_refused_empty_and (numOf : String → Option Int) (d : Elem) :
-    mEval d (convert (.and []) false) = none ∧ eval numOf d (.and []) = true := by
+example (numOf : String → Option Int) (d : Elem)
+    (hx : lookup d "tags" = .arr [.str "a", .num 1024]) :
+    mEval d (convert (.cond "tags" .contains (.num 1024)) false) = some true ∧
+    eval numOf d (.cond "tags" .contains (.num 1024)) = true := by
   constructor
-  · simp [convert, junction, convertList, mEval]
-  · simp [eval, evalList, allTrue]
+  · simp [convert, convCond, mEval, opOf, evalOp, foundIn, hx]
+  · simp [eval, matchesCond, foundIn, hx]
+
+/-- FROZEN, about the OLD translation `{key: {$in: [a]}}`: whenever the field holds a value equal
+    to the argument — scalar, object or list — the old filter selected the document and the core
+    engine does not keep it (a value is not a list containing itself); dually under a negation.
+    Stronger than the old `filter_differs_contains_scalar` (any key, any argument). -/
+theorem old_contains_selected_scalar (numOf : String → Option Int) (d : Elem) (k : String) (a : JV)
+    (hx : lookup d k = a) :
+    mEval d (oldContains k a false) = some true ∧
+    mEval d (oldContains k a true) = some false ∧
+    eval numOf d (.cond k .contains a) = false := by
+  refine ⟨?_, ?_, ?_⟩
+  · simp [oldContains, mEval, evalOp, hx, Old.foundIn_head]
+  · simp [oldContains, mEval, evalOp, hx, Old.foundIn_head]
+  · simp only [eval, matchesCond, hx]
+    cases a <;> simp [Old.foundIn_self]
+
+/-- test: the literal former witness `filter_differs_contains_scalar`. -/
+example (numOf : String → Option Int) (d : Elem) (hx : lookup d "x" = .num 1024) :
+    mEval d (oldContains "x" (.num 1024) false) = some true ∧
+    eval numOf d (.cond "x" .contains (.num 1024)) = false :=
+  let h := old_contains_selected_scalar numOf d "x" (.num 1024) hx
+  ⟨h.1, h.2.2⟩
+
+/-! ### C14-invalid-filter, REPAIRED (`fix: the mongo compiler emits no filter MongoDB rejects`) -/
+
+/-- FULL — every document, both polarities: and() compiles to a filter that holds for every
+    document (none under a negation), or() to one that holds for none (every one under a
+    negation), as the core engine answers.  (Replaces `filter_refused_empty_and`.) -/
+theorem empty_and_or_agree (numOf : String → Option Int) (d : Elem) (n : Bool) :
+    mEval d (convert (.and []) n) = some (true != n) ∧ eval numOf d (.and []) = true ∧
+    mEval d (convert (.or []) n) = some (false != n) ∧ eval numOf d (.or []) = false := by
+  cases n <;> simp [convert, junction, convertList, mEval, eval, evalList, allTrue, anyTrue]
+
+/-- …in the form of the other agreement theorems. -/
+theorem empty_and_or_agree_eval (numOf : String → Option Int) (d : Elem) (n : Bool) :
+    mEval d (convert (.and []) n) = some (eval numOf d (.and []) != n) ∧
+    mEval d (convert (.or []) n) = some (eval numOf d (.or []) != n) := by
+  obtain ⟨h1, h2, h3, h4⟩ := empty_and_or_agree numOf d n
+  rw [h1, h2, h3, h4]; exact ⟨rfl, rfl⟩
+
+/-- test: nested empties — `not(and(or(), not(and())))` keeps every document on both sides. -/
+example (numOf : String → Option Int) (d : Elem) :
+    mEval d (convert (.not (.and [.or [], .not (.and [])])) false) = some true ∧
+    eval numOf d (.not (.and [.or [], .not (.and [])])) = true := by
+  constructor
+  · simp [convert, convertList, junction, mEval, mEvalList, orOpt]
+  · simp [eval, evalList, allTrue, anyTrue]
+
+/-- FROZEN, about the OLD translation `{$and: []}` / `{$or: []}`: MongoDB refuses it, for and() and
+    or(), under either polarity, while the core engine answers. -/
+theorem old_empty_and_refused (numOf : String → Option Int) (d : Elem) (n : Bool) :
+    mEval d (MDoc.and []) = none ∧ mEval d (MDoc.or []) = none ∧
+    mEval d (oldJunction true n []) = none ∧ mEval d (oldJunction false n []) = none ∧
+    eval numOf d (.and []) = true ∧ eval numOf d (.or []) = false := by
+  cases n <;> simp [oldJunction, mEval, eval, evalList, allTrue, anyTrue]
+
+/-- FULL — every document, key, non-list argument, both polarities (so every field value):
+    within answers "nothing", without "everything", like the core engine. -/
+theorem within_without_nonlist_agree (numOf : String → Option Int) (d : Elem) (k : String) (a : JV)
+    (n : Bool) (ha : isArr a = false) :
+    mEval d (convert (.cond k .within a) n) = some (eval numOf d (.cond k .within a) != n) ∧
+    mEval d (convert (.cond k .without a) n) = some (eval numOf d (.cond k .without a) != n) ∧
+    eval numOf d (.cond k .within a) = false ∧ eval numOf d (.cond k .without a) = true := by
+  refine ⟨?_, ?_, ?_, ?_⟩
+  · simpa [eval, Lemmas.pol] using Lemmas.leaf_within_nonlist numOf d k a n ha
+  · simpa [eval, Lemmas.pol] using Lemmas.leaf_without_nonlist numOf d k a n ha
+  · cases a <;> simp [isArr] at ha <;> simp [eval, matchesCond]
+  · cases a <;> simp [isArr] at ha <;> simp [eval, matchesCond]
+
+/-- test: the hypothesis is satisfiable, and the answer does not look at the field. -/
+example : isArr (.num 1024) = false ∧ isArr (.str "a") = false ∧ isArr .null = false ∧
+    isArr (.obj [("a", .arr [])]) = false := by decide
+example (d : Elem) : mEval d (convert (.cond "x" .without (.num 1024)) false) = some true ∧
+    mEval d (convert (.not (.cond "x" .within (.str "a"))) false) = some true := by
+  constructor <;> simp [convert, convCond, isArr, mEval]
+
+/-- FROZEN, about the OLD translation `{key: {$in: <not a list>}}` (and its `$not`s): MongoDB
+    refuses it — within and without, under either polarity, whatever the document. -/
+theorem old_in_scalar_refused (d : Elem) (k : String) (a : JV) (n : Bool) (ha : isArr a = false) :
+    mEval d (oldWithin k a n) = none ∧ mEval d (oldWithout k a n) = none := by
+  cases a <;> simp [isArr] at ha <;> cases n <;> simp [oldWithin, oldWithout, mEval, evalOp]
 
 /-- C14-range-args, REPAIRED (`fix: the mongo compiler treats a range condition whose value is not
     a list of two bounds as matching nothing`): before, fewer than two bounds made
@@ -159,30 +397,12 @@ theorem range_args_malformed_agree (numOf : String → Option Int) (d : Elem) (k
     (a : JV) (n : Bool) (hc : c = .inside ∨ c = .outside ∨ c = .between)
     (ha : ∀ l u, a ≠ .arr [l, u]) :
     mEval d (convert (.cond k c a) n) = some (eval numOf d (.cond k c a) != n) := by
-  have hcore : eval numOf d (.cond k c a) = false := by
-    simp only [eval]
-    rcases hc with rfl | rfl | rfl <;> simp only [matchesCond, range3] <;>
-      (cases a with
-       | arr xs =>
-         simp only [toSlice]
-         match xs, ha with
-         | [], _ => rfl
-         | [_], _ => rfl
-         | [l, u], ha => exact absurd rfl (ha l u)
-         | _ :: _ :: _ :: _, _ => rfl
-       | _ => rfl)
-  have hconv : ∀ c1 c2 isAnd, convRange k c1 c2 isAnd a n = if n then MDoc.all else MDoc.nothing := by
-    intro c1 c2 isAnd
-    cases a with
-    | arr xs =>
-      match xs, ha with
-      | [], _ => rfl
-      | [_], _ => rfl
-      | [l, u], ha => exact absurd rfl (ha l u)
-      | _ :: _ :: _ :: _, _ => rfl
-    | _ => rfl
-  rw [hcore]
-  rcases hc with rfl | rfl | rfl <;> simp only [convert, hconv] <;> cases n <;> rfl
+  simpa [eval, Lemmas.pol] using Lemmas.leaf_range_malformed numOf d k c a n hc ha
+
+/-- test: arguments satisfying the hypothesis. -/
+example : (∀ l u, JV.arr [JV.num 1] ≠ .arr [l, u]) ∧ (∀ l u, JV.num 1 ≠ .arr [l, u]) ∧
+    (∀ l u, JV.arr [.num 1, .num 2, .num 3] ≠ .arr [l, u]) := by
+  refine ⟨?_, ?_, ?_⟩ <;> intro l u h <;> simp at h
 
 /-- …in particular the former crash witness and the former "selects everything" witness. -/
 theorem filter_short_range_no_crash (numOf : String → Option Int) (d : Elem) (n : Bool) :
@@ -194,11 +414,14 @@ theorem filter_short_range_no_crash (numOf : String → Option Int) (d : Elem) (
 
 /-! ### Non-vacuity -/
 section examples
-def dec : String → Option Int := fun s => if s = "30" then some 30720 else none
 example : leafAgree dec (.num 2048) .gt (.num 1024) = true := by decide
 example : leafAgree dec (.str "abc") .gt (.num 1024) = true := by decide
 example : leafAgree dec (.str "30") .gt (.num 1024) = false := by decide
 example : leafAgree dec .null .within (.arr [.null, .num 1024]) = true := by decide
+example : leafAgree dec .null .within (.num 1024) = true := by decide
+example : leafAgree dec (.num 1024) .contains (.num 1024) = true := by decide
+example : leafAgree dec (.arr [.num 1024]) .contains (.num 1024) = false ∧
+    leafAgreeW dec (.arr [.num 1024]) .contains (.num 1024) = true := by decide
 example : leafAgree dec (.num 2048) .between (.arr [.num 1024, .num 3072]) = true := by decide
 example : leafTranslatable .inside (.arr []) = true := by decide
 example : Lemmas.okArg .vertex (.marks .one .edge) = true := by decide
